@@ -376,11 +376,13 @@ func rlpRoots() []*rlpRoot {
 }
 
 func (c *checker) rlpViolation(kind string, r *rlpRoot, g *gridValue, detail string) {
-	shape := "base"
-	if g.Desc.Path != "" {
-		shape = g.Kind[g.Desc.Path] + "/" + g.Shape[g.Desc.Path]
+	sig := map[string]string{"phase": "rlp", "kind": kind, "target": r.spec.Name}
+	if kind == "value-changed" && g.Desc.Path != "" {
+		// which kind of leaf does not survive; for the other kinds the
+		// failing class is the operation on the type, not the varied leaf
+		sig["leaf"] = g.Kind[g.Desc.Path]
 	}
-	c.report(map[string]string{"phase": "rlp", "kind": kind, "target": r.spec.Name, "shape": shape},
+	c.report(sig,
 		kase{Phase: "rlp", RLP: &rlpCase{Kind: "grid", Target: r.spec.Name, Value: &g.Desc}}, detail)
 }
 
